@@ -82,7 +82,7 @@ func (c *Ctx) siteIdx() *siteIndex {
 // (function value taken, exported method possibly called through an interface, no sites).
 func (c *Ctx) callSites(fn *ssa.Function) []ssa.CallInstruction {
 	si := c.siteIdx()
-	if si.taken[fn] || fn.Parent() != nil {
+	if si.taken[fn] || fn.Parent() != nil || c.h1ValueUsed(fn) { // ip_h1.go: also a method value (s.m) is a use as a value
 		return nil
 	}
 	if fn.Signature.Recv() != nil {
@@ -448,6 +448,12 @@ func (c *Ctx) reach(entries []*ssa.Function, scope func(*ssa.Function) bool) map
 			for _, op := range instr.Operands(nil) {
 				if f, ok := (*op).(*ssa.Function); ok {
 					add(f)
+					// a method value or method expression: the synthetic wrapper is not module code, the method it calls is (ip_h1.go)
+					static, invoked := h1WrapperTargets(f)
+					for _, t := range static {
+						add(t)
+					}
+					pendingInvokes = append(pendingInvokes, invoked...)
 				}
 			}
 		})
